@@ -158,6 +158,7 @@ EXTRA6 = {
  "C07": ("; who-may-delete rule (entries are removed by trimming only)", " Also: sampling never removes a cell."),
  "C10": ("; touch-index rule (context touches use a negative constant index)", " Also: the touch of {time live}/{time delta} is one that wrapping contexts forward."),
  "C13": ("; time-precision lint in the sorting package", " Also: dates are ordered at full precision."),
+ "C14": ("; more-count agreement rule on the '(n more)' notes", " Also: a '(n more)' note counts what its guard compared."),
  "C18": ("; offset-precision table rule over the named formats", " Also: named formats write zone offsets to the minute."),
  "C16": ("; context-read-only effect rule on the match context; abstract interpretation of the numeric recogniser against the JSON number DFA (typestate of the scan index over byte classes, explored to a fixpoint; found and fixed the leading-zero defect)", " Also: every text isNumeric accepts is a JSON number (decided exactly while the recogniser stays within the interpreted scan idiom; outside it the rule reports 'not decided' and does not fail)."),
 }
